@@ -239,6 +239,26 @@ func check(c Case) (vk.Outcome, error) {
 			return out, viol(c, "kept ids %v want %v", ids(got), want)
 		}
 	case "Runs":
+		if c.A%4 == 0 {
+			// run-structured input over a tiny alphabet: long runs, a short one in between, the first value again
+			ua, ub := ((c.A%40)+40)%40, ((c.B%48)+48)%48 // (A and B may be negative or huge)
+			lens := []int{64 + ua, 1 + ub%3, 64 + ub, 200 + ua, 1, 1, 130}
+			var long []int
+			for i, l := range lens {
+				for k := 0; k < l; k++ {
+					long = append(long, i%2)
+				}
+			}
+			rs := xslices.Runs(long, func(a, b int) bool { return a == b })
+			if len(rs) != len(lens) {
+				return out, viol(c, "Runs over runs of lengths %v of alternating values: %d runs", lens, len(rs))
+			}
+			for i, r := range rs {
+				if len(r) != lens[i] {
+					return out, viol(c, "Runs over runs of lengths %v of alternating values: run %d has %d items", lens, i, len(r))
+				}
+			}
+		}
 		got := xslices.Runs(in, func(a, b el) bool { return a.V == b.V })
 		var flat []int
 		for ri, r := range got {
@@ -441,11 +461,18 @@ func check(c Case) (vk.Outcome, error) {
 			}
 			got = xsort.MergeSlices(lessV, pre, ins...)
 		} else {
-			its := make([]iterator.Iterator[el], len(ins))
+			its := make([]iterator.Iterator[el], len(ins), len(ins)+2)
 			for i := range ins {
 				its[i] = iterator.Slice(ins[i])
 			}
+			mine := append([]iterator.Iterator[el]{}, its...)
 			got = iterator.Collect(xsort.Merge(lessV, its...))
+			// the spread slice is the caller's: it still lists the same iterators afterwards
+			for i := range its {
+				if its[i] != mine[i] {
+					return out, viol(c, "Merge(less, list...) overwrote element %d of the caller's list", i)
+				}
+			}
 		}
 		if !eqInts(sortedCopy(ids(got)), sortedCopy(ids(all))) {
 			return out, viol(c, "output ids %v are not a permutation of the inputs (%d items)", ids(got), len(all))
@@ -626,6 +653,19 @@ func check(c Case) (vk.Outcome, error) {
 		}
 		if cnt != len(m) {
 			return out, viol(c, "Reverse lists %d of %d keys", cnt, len(m))
+		}
+		// the key lists are the caller's now, each of them: appending to one does not show in another
+		snap := map[int][]int{}
+		for v, ks := range rev {
+			snap[v] = append([]int{}, ks...)
+		}
+		for v, ks := range rev {
+			rev[v] = append(ks, -12345)
+		}
+		for v, ks := range rev {
+			if !eqInts(ks[:len(ks)-1], snap[v]) {
+				return out, viol(c, "Reverse: after appending to every key list, the list of value %d reads %v (was %v): the lists share memory", v, ks[:len(ks)-1], snap[v])
+			}
 		}
 		rs, rok := xmaps.ReverseSingle(m)
 		if rok != (len(rev) == len(m)) || len(rs) != len(rev) {
